@@ -298,7 +298,12 @@ class XExprEvaluator(ModelVisitor):
             self.val = None
         else:
             self.is_x = False
-            self.val = f.get_val()
+            # The model holds the bit image of the value (list elements) or 
+            # the value itself: normalize to the value of the field's type
+            v = int(f.get_val()) & ((1 << f.width)-1)
+            if f.is_signed and (v >> (f.width-1)) != 0:
+                v -= (1 << f.width)
+            self.val = ValueScalar(v)
             
     def visit_enum_field(self, f:EnumFieldModel):
         if f.is_used_rand:
